@@ -932,11 +932,11 @@ class Executor:
             return [(g, r, "float")]
         if op is ast.Div:
             x, y = _as_real(ta, tya), _as_real(tb, tyb)
-            self.oblige("div0", mk_and(pc, g, y == 0), node, "divisor may be zero")
+            self.oblige("div0", mk_and(pc, g, _eq0(y)), node, "divisor may be zero")
             return [(g, x / y, "float")]
         if op in (ast.FloorDiv, ast.Mod):
             x, y = _as_real(ta, tya), _as_real(tb, tyb)
-            self.oblige("div0", mk_and(pc, g, y == 0), node, "divisor may be zero")
+            self.oblige("div0", mk_and(pc, g, _eq0(y)), node, "divisor may be zero")
             q = z3.ToInt(x / y)  # floor
             if op is ast.FloorDiv:
                 return [(g, q, "int")] if both_int else [(g, z3.ToReal(q), "float")]
@@ -1325,6 +1325,12 @@ def _b(t):
     if t is False:
         return FALSE
     return t
+
+
+def _eq0(y):
+    if _is_val(y):
+        return TRUE if _z3_frac(y) == 0 else FALSE
+    return y == 0
 
 
 def _is_val(t):
